@@ -1039,8 +1039,8 @@ class Check(common.Check):
 
 
 Check.THEOREMS = ['Sc3Verif.C18.' + t for t in (
-    'fullmatch_iff_language', 'match_iff_language', 'malformed_matches_nothing', 'literal_matches_only_itself',
-    'dispatch_refines', 'dispatch_refines_state', 'dispatch_exact', 'dispatch_matching', 'only_enabled_fire',
+    'fullmatch_iff_language', 'match_iff_language', 'malformed_matches_nothing', 'literal_matches_only_itself', 'wildcard_pattern_language',
+    'dispatch_refines', 'dispatch_refines_state', 'dispatch_exact', 'dispatch_matching', 'only_enabled_fire', 'oneshot_fires_once',
     'malformed_no_dispatch', 'decoder_total', 'negative_element_size_rejected',
     'registry_runs_current', 'registry_runs_subsequence', 'registry_add_order', 'registry_remove_removes',
     'server_action_remove_removes', 'server_action_run', 'notification_notify')]
